@@ -102,7 +102,7 @@ type cont interface {
 	sort(rev bool) error
 	slice(a, b int) (cont, error)
 	appendScalar(x, how int) (cont, error)
-	appendVector(w []int) (cont, error)
+	appendVector(w []int, how int) (cont, error)
 	arith(name string, w []int, x int, operand string) error
 	iterFrom(from int, how int) (iter, error)
 	walk(how int) ([][]int, error)
@@ -176,8 +176,8 @@ func (c *vecCont) write(i, x, how int) {
 	}
 }
 
-func (c *vecCont) reset()        { c.v.Reset() }
-func (c *vecCont) swap(i, k int) { c.v.Swap(i, k) }
+func (c *vecCont) reset()                  { c.v.Reset() }
+func (c *vecCont) swap(i, k int)           { c.v.Swap(i, k) }
 func (c *vecCont) swapRows(i, k int) error { return errUnsupported }
 func (c *vecCont) swapCols(i, k int) error { return errUnsupported }
 func (c *vecCont) reverse() error {
@@ -232,7 +232,10 @@ func (c *vecCont) appendScalar(x, how int) (cont, error) {
 	return &vecCont{c.t, c.v.AppendScalar(s), c.concrete}, nil
 }
 
-func (c *vecCont) appendVector(w []int) (cont, error) {
+func (c *vecCont) appendVector(w []int, how int) (cont, error) {
+	if how%3 == 2 { // operand of another vector type: the generic branch of AppendVector
+		return &vecCont{c.t, c.v.AppendVector(mkDense(c.t, w)), c.concrete}, nil
+	}
 	o := mkVector(c.t, w)
 	if c.concrete {
 		if r, ok := c.call("APPEND", o); ok {
@@ -491,8 +494,8 @@ type matCont struct {
 	rows, cols int
 }
 
-func (c *matCont) kind() string    { return fmt.Sprintf("matrix%dx%d", c.rows, c.cols) }
-func (c *matCont) dim() int        { r, k := c.m.Dims(); return r * k }
+func (c *matCont) kind() string        { return fmt.Sprintf("matrix%dx%d", c.rows, c.cols) }
+func (c *matCont) dim() int            { r, k := c.m.Dims(); return r * k }
 func (c *matCont) rc(i int) (int, int) { return i / c.cols, i % c.cols }
 
 func (c *matCont) read(i, how int) float64 {
@@ -565,10 +568,10 @@ func (c *matCont) permute(p []int) error {
 	}
 	return nil
 }
-func (c *matCont) sort(rev bool) error                { c.m.AsVector().Sort(rev); return nil }
-func (c *matCont) slice(a, b int) (cont, error)       { return nil, errUnsupported }
-func (c *matCont) appendScalar(x, h int) (cont, error) { return nil, errUnsupported }
-func (c *matCont) appendVector(w []int) (cont, error)  { return nil, errUnsupported }
+func (c *matCont) sort(rev bool) error                       { c.m.AsVector().Sort(rev); return nil }
+func (c *matCont) slice(a, b int) (cont, error)              { return nil, errUnsupported }
+func (c *matCont) appendScalar(x, h int) (cont, error)       { return nil, errUnsupported }
+func (c *matCont) appendVector(w []int, h int) (cont, error) { return nil, errUnsupported }
 
 func (c *matCont) mk(w []int) Matrix {
 	o := NullSparseMatrix(c.t, c.rows, c.cols)
